@@ -368,8 +368,10 @@ pub fn exec_c09(case: &RCase) -> CaseReport {
     // versions of reinsertion keys that were flushed (acknowledged by a drain + wait) and never deleted since
     let mut flushed_r: BTreeMap<u64, u64> = BTreeMap::new();
     let len_of = |pages: u8| (pages as usize).clamp(1, 3) * PAGE - ENTRY_OVERHEAD - 11;
+    // page-aligned size of one copy of the reinsertion set
+    let r_vol: usize = if big_reinsert_key(case).is_some() { cfg.block_size - cfg.blob_index_size } else { reinsert_keys.len() * PAGE };
 
-    let mut verify = |sim: &mut HybSim, model: &BTreeMap<u64, Option<(u64, usize)>>, flushed_r: &mut BTreeMap<u64, u64>, failures: &mut Vec<Failure>, ctx: &str| {
+    let mut verify = |sim: &mut HybSim, model: &BTreeMap<u64, Option<(u64, usize)>>, flushed_r: &mut BTreeMap<u64, u64>, failures: &mut Vec<Failure>, ctx: &str, submitted: usize| {
         sim.raw_evict_all();
         sim.raw_settle();
         for (k, cur) in model {
@@ -385,7 +387,16 @@ pub fn exec_c09(case: &RCase) -> CaseReport {
             match (&out, cur) {
                 (LookupOut::Miss, _) => {
                     let (sb, sc) = sim.shed_counters();
-                    if let (Some(v), Some((cv, _)), true) = (flushed_r.get(k), cur, sb == 0 && sc == 0) {
+                    // a reinsertion may be shed when the flush buffer is full - which cannot have happened if
+                    // everything ever submitted to the flushers (all inserts plus one copy of the reinsertion set per
+                    // reclaimed block) is less than one flush buffer
+                    let cleans = sim
+                        .full_log()
+                        .iter()
+                        .filter(|(_, r)| r.kind == IoKind::Write && r.offset == 0 && r.len == PAGE && r.data.as_ref().map(|d| d.iter().all(|x| *x == 0)).unwrap_or(false))
+                        .count();
+                    let overflow_impossible = submitted + (cleans + 2) * r_vol <= cfg.buffer_pool_size / cfg.flushers;
+                    if let (Some(v), Some((cv, _)), true) = (flushed_r.get(k), cur, (sb == 0 || overflow_impossible) && sc == 0) {
                         if v == cv {
                             failures.push(Failure::new(
                                 "reinsertion-entry-lost",
@@ -441,7 +452,7 @@ pub fn exec_c09(case: &RCase) -> CaseReport {
                 };
                 let v = sim.raw_insert(*k as u64, len);
                 model.insert(*k as u64, Some((v, len)));
-                bytes_written += (*pages as usize).clamp(1, 3) * PAGE;
+                bytes_written += (len + ENTRY_OVERHEAD).div_ceil(PAGE) * PAGE;
                 sim.raw_settle();
             }
             ROp::Burst { n, pages } => {
@@ -473,7 +484,7 @@ pub fn exec_c09(case: &RCase) -> CaseReport {
             ROp::DrainVerify => {
                 sim.raw_drain();
                 match sim.raw_wait() {
-                    Ok(()) => verify(&mut sim, &model, &mut flushed_r, &mut failures, &format!("after drain at op {i}")),
+                    Ok(()) => verify(&mut sim, &model, &mut flushed_r, &mut failures, &format!("after drain at op {i}"), bytes_written),
                     Err(_) => failures.push(Failure::new("wait-stalls", format!("op {i}: wait() never resolves although every pending device io has been completed (no writer can obtain a clean block)"))),
                 }
             }
@@ -514,7 +525,7 @@ pub fn exec_c09(case: &RCase) -> CaseReport {
     if failures.is_empty() {
         sim.raw_drain();
         match sim.raw_wait() {
-            Ok(()) => verify(&mut sim, &model, &mut flushed_r, &mut failures, "final"),
+            Ok(()) => verify(&mut sim, &model, &mut flushed_r, &mut failures, "final", bytes_written),
             Err(_) => failures.push(Failure::new("wait-stalls", "final: wait() never resolves although every pending device io has been completed".to_string())),
         }
     }
